@@ -199,7 +199,7 @@ pub fn type_name(dt: &DataType) -> String {
 }
 
 pub fn cell_json(a: &ArrayRef, i: usize) -> Value {
-    if a.is_null(i) {
+    if a.is_null(i) || matches!(a.data_type(), DataType::Null) {
         return Value::Null;
     }
     match a.data_type() {
